@@ -83,6 +83,7 @@ type World struct {
 	ctl               *xdb.Ctl
 	ctlBase           int64
 	reservedExtra     map[wire.OutPoint]bool
+	closed            bool // close() ran (or the case disposed of the instance itself)
 	// options
 	allowNullData bool
 	allowStaking  bool
@@ -117,6 +118,9 @@ func newWorld(t *rapid.T, nWallets int, gap uint32, wrap func(mwdb.DB) mwdb.DB) 
 	}
 	w := &World{node: node, env: env, flags: map[string]bool{}, gap: gap, tipAnnounced: true,
 		pending: map[wire.Hash]*wire.MsgTx{}, everSeen: map[wire.Hash]*wire.MsgTx{}, reservedExtra: map[wire.OutPoint]bool{}, allowNullData: true, allowStaking: true, allowBinding: true}
+	// a failing case leaves through Fatalf from anywhere: the instance (a 128 MiB write buffer per open
+	// wallet database, goroutines, files) must not outlive it, or a shrinking failure exhausts memory
+	t.Cleanup(w.close)
 	if err := env.StartStepped(); err != nil {
 		w.close()
 		t.Fatalf("HARNESS: start: %v", err)
@@ -142,6 +146,11 @@ func newWorld(t *rapid.T, nWallets int, gap uint32, wrap func(mwdb.DB) mwdb.DB) 
 }
 
 func (w *World) close() {
+	if w.closed {
+		return
+	}
+	w.closed = true
+	w.apiForget()
 	w.env.Close()
 	w.node.Close()
 }
